@@ -466,7 +466,7 @@ pub fn run(o: &mut Out, tier: &str, seed: u64) {
     // key parsers (from_slice, TryFrom<&[u8]>, TryFrom<[u8; 32]>) at EVERY length 0..=70
     for len in 0..=70usize { let b = r.bytes(len); bin(&mut iso, o, "pubkey_bytes", &b, false); bin(&mut iso, o, "seckey_bytes", &b, false); }
     // (9) LARGE inputs, where the slope of the heap bound and super-linear time become visible (built inside the child from (family, n))
-    { let sizes: &[(&str, usize, &str)] = if thorough { &[("tx_outs", 20_000, "parse"), ("tx_outs", 4_000, "ops"), ("tx_outs_tagged", 70_000, "scan"), ("extra_0200", 100_000, "ops"), ("extra_0200", 1_000_000, "parse"), ("extra_keys", 30_000, "ops"), ("extra_nonces", 4_000, "ops"),
+    { let sizes: &[(&str, usize, &str)] = if thorough { &[("tx_outs", 20_000, "parse"), ("tx_outs", 4_000, "ops"), ("tx_outs_tagged", 40_000, "scan"), ("extra_0200", 100_000, "ops"), ("extra_0200", 1_000_000, "parse"), ("extra_keys", 30_000, "ops"), ("extra_nonces", 4_000, "ops"),
               ("tx_extra_0200", 200_000, "parse"), ("block_hashes", 1 << 17, "parse"), ("block_hashes", 1 << 20, "parse"), ("block_hashes", (1 << 20) + 1, "parse"), ("varint_ff", 1 << 20, "parse"), ("tx_ff", 1 << 20, "parse"), ("block_ff", 1 << 22, "parse")] }
           else { &[("tx_outs", 3_000, "parse"), ("tx_outs", 600, "ops"), ("tx_outs_tagged", 16_600, "scan"), ("extra_0200", 100_000, "parse"), ("extra_0200", 20_000, "ops"), ("extra_keys", 5_000, "ops"), ("extra_nonces", 1_000, "ops"), ("tx_extra_0200", 50_000, "parse"),
               ("block_hashes", 1 << 15, "parse"), ("block_hashes", 1 << 20, "parse"), ("varint_ff", 1 << 20, "parse"), ("tx_ff", 1 << 18, "parse"), ("block_ff", 1 << 20, "parse")] };
